@@ -16,6 +16,8 @@ pub mod c14;
 pub mod c15;
 pub mod c16;
 pub mod c17;
+pub mod c18;
+pub mod c19;
 pub mod c20;
 
 use crate::runner::{replay_prop, run_prop, Ctx};
@@ -48,6 +50,8 @@ pub fn dispatch(id: &str, ctx: &Ctx, replay: Option<&str>) -> i32 {
     "C15" => go!(c15::C15, ctx, replay),
     "C16" => go!(c16::C16, ctx, replay),
     "C17" => go!(c17::C17, ctx, replay),
+    "C18" => go!(c18::C18, ctx, replay),
+    "C19" => go!(c19::C19, ctx, replay),
     "C20" => go!(c20::C20, ctx, replay),
     _ => {
       eprintln!("unknown property {id}");
